@@ -240,6 +240,10 @@ func runSpec(rep *kit.Report, sp kit.Spec, label string, bothOrders bool, maxSta
 	muts := kit.Mutations(sp, []string{"add", "remove", "set"}, bothOrders)
 	var sc am.Schema
 	st, tr, capped := kit.ExploreSpec(sp, muts, kit.ExploreOpts{MaxStates: maxStates}, func(t *kit.Trans) {
+		if t.Panic != "" {
+			rep.Violate("c02:panic-escaped", "mutation call panicked: "+t.Panic+" :: "+t.String(), t.Replay())
+			return
+		}
 		if sc == nil {
 			sc = t.Mach.Schema()
 		}
